@@ -140,10 +140,10 @@ class RankSelection(SelectionFunction[T]):
         """
         random_value = randomness.next_float()
         bias = self.bias
-        return int(
-            len(population)
-            * ((bias - sqrt(bias**2 - (4.0 * (bias - 1.0) * random_value))) / 2.0 / (bias - 1.0))
-        )
+        # Numerically stable form of (bias - sqrt(d)) / (2 * (bias - 1)): no cancellation
+        # and no division by zero for a bias of (or close to) 1.0.
+        discriminant = bias**2 - (4.0 * (bias - 1.0) * random_value)
+        return int(len(population) * (2.0 * random_value / (bias + sqrt(discriminant))))
 
 
 class TournamentSelection(SelectionFunction[T]):
